@@ -320,9 +320,9 @@ func (p *MetadataPersister) GetHeaderDirectChildren(ctx context.Context, name st
 
 		query := fmt.Sprintf(
 			`select %v, %v, %v, %v, %v, %v, %v, %v, %v, %v, %v, %v, %v, %v, %v, %v, %v, %v, %v, %v, %v,
-    length(replace(%v, ?, '')) - length(replace(replace(%v, ?, ''), '/', '')) as depth
+    length(substr(%v, length(?) + 1)) - length(replace(substr(%v, length(?) + 1), '/', '')) as depth
 from %v
-where %v like ?
+where substr(%v, 1, length(?)) = ?
     and (
         depth = ?
         or (
@@ -369,7 +369,8 @@ where %v like ?
 				query+`limit ?`,
 				prefix,
 				prefix,
-				prefix+"%",
+				prefix,
+				prefix,
 				rootDepth,
 				rootDepth+1,
 				limit+1, // +1 to accomodate the parent directory if it exists
@@ -385,7 +386,8 @@ where %v like ?
 				query,
 				prefix,
 				prefix,
-				prefix+"%",
+				prefix,
+				prefix,
 				rootDepth,
 				rootDepth+1,
 			).Bind(ctx, p.sqlite.DB, &headers); err != nil {
